@@ -1,7 +1,9 @@
 (* Property C15: scope-exit actions (defer blocks, <close> variables) run exactly once, innermost first,
-   on every exit path.  Only the property theorems, each closed by [exact] of a lemma of Proofs.v. *)
+   on every exit path.  Only the property theorems, each closed by [exact] of a lemma of the proof files.
+   Every predicate used in a statement is defined in Model.v (accepted / wf_prog, ref_sem, tgt_sem, compile,
+   stack_run, run_discipline), Facts.v (generator_facts) or CloseIndex.v (visit_close_all). *)
 From Coq Require Import List.
-From C15 Require Import Gen Model Proofs Discipline NoFuel CloseIndex.
+From C15 Require Import Gen Model Facts Proofs Discipline NoFuel CloseIndex.
 From Coq Require Import Sorted Permutation.
 Import ListNotations.
 
